@@ -119,7 +119,7 @@ class VG(object):
         return self.d(st.integers(a, b))
 
     def real(self, wc):
-        if wc is not None and wc[0] == -16777215:
+        if wc is not None and abs(wc[0]) <= 16777216 and abs(wc[1]) <= 16777216:
             x = self.real(None)
             try:
                 y = struct.unpack('>f', struct.pack('>f', x))[0]
